@@ -39,8 +39,8 @@ def pieceOk : Piece → Option Char → Bool
     | none => false
   | .tok (.int n), nx => decide ((Nat.toDigits 10 n).length ≤ 4300) && nextNot intStop nx
   | .tok (.ident s), nx => identOk s.toList && nextNot isIdCont nx
-  | .tok .tTrue, _ => true
-  | .tok .tFalse, _ => true
+  | .tok .tTrue, nx => nextNot isWord nx
+  | .tok .tFalse, nx => nextNot isWord nx
   | .tok (.flt r n d), nx => floatShape r.toList && floatTokIs r n d && nextNot isWord nx
   | .tok (.imag _), _ => false
 
@@ -148,11 +148,13 @@ theorem piece_step {p : Piece} {rest : List Char} (h : pieceOk p rest.head? = tr
     | tTrue =>
       have hch : pieceChars (.tok .tTrue) = ['T', 'r', 'u', 'e'] := by decide
       rw [hch]
-      exact ⟨true_step rest, by simp, by simp [pieceTag, tokOf, pieceTok, pure, Except.pure]⟩
+      simp only [pieceOk] at h
+      exact ⟨true_step rest h, by simp, by simp [pieceTag, tokOf, pieceTok, pure, Except.pure]⟩
     | tFalse =>
       have hch : pieceChars (.tok .tFalse) = ['F', 'a', 'l', 's', 'e'] := by decide
       rw [hch]
-      exact ⟨false_step rest, by simp, by simp [pieceTag, tokOf, pieceTok, pure, Except.pure]⟩
+      simp only [pieceOk] at h
+      exact ⟨false_step rest h, by simp, by simp [pieceTag, tokOf, pieceTok, pure, Except.pure]⟩
     | sym s =>
       simp only [pieceOk] at h
       have hch : pieceChars (.tok (.sym s)) = s.toList := rfl
